@@ -6,9 +6,7 @@ from harness.common import NAMES, VOID, CAT, triples, mk_ub, classify_get_positi
 SPEC = {
     "gen": ["DocTable"],
     "modules": ["DiffcalcProofs.Props.C09"],
-    "theorems": {"DiffcalcProofs.Props.C09": [
-        "c09_all", "c09_full", "mem_sublists3", "active_mem_triples", "triples_length", "accepted_count",
-        "implemented_count"]},
+    "theorems": {"DiffcalcProofs.Props.C09": ["C09.c09_all", "C09.c09_full", "C09.mem_sublists3", "C09.active_mem_triples", "C09.triples_length", "C09.accepted_count", "C09.implemented_count"]},
     "level": "proof",
     "exhaustive": True,
     "rule": "all 680 three-element subsets of the 17 constraint names, each run on the real Constraints + get_position "
